@@ -972,3 +972,46 @@ func genFormat(s *sink, quick bool) {
 		emitp(t)
 	}
 }
+
+// genAlias: the result of a sequence operator on a list is a new list.  For every
+// list-producing operation (x*n, n*x, x+y, y+x, x+x, x[lo:hi:step], list(x), sorted(x),
+// reversed(x)) on lists of length 0..3, with counts -1..3, neighbours of every length
+// and every slice that can return the whole list, the result OR an operand is then
+// mutated in place (element assignment, append, pop+append, clear, insert) and all
+// lists are observed: value comparison of the product alone never shows sharing.
+func genAlias(s *sink, quick bool) {
+	s.pyEvery["alias"] = 2
+	muts := []string{"set-result", "append-result", "popappend-result", "clear-result", "insert-result",
+		"set-operand", "append-operand", "popappend-operand", "clear-operand", "insert-operand"}
+	for n := 0; n <= 3; n++ {
+		x := intList([]int64{3, 1, 2}[:n]...)
+		do := func(op string, a V, ms []string) {
+			for _, m := range ms {
+				xx := x
+				s.do(Case{Op: "alias", Kind: "list", X: &xx, Name: op, Args: []V{a}, Key: m, Class: "alias"})
+			}
+		}
+		for k := int64(-1); k <= 3; k++ {
+			do("mul", vInt(k), muts)
+			do("rmul", vInt(k), muts)
+		}
+		for m := 0; m <= 2; m++ {
+			y := intList([]int64{7, 8}[:m]...)
+			withOther := append(append([]string{}, muts...), "set-other", "append-other", "popappend-other", "clear-other", "insert-other")
+			do("add", y, withOther)
+			do("radd", y, withOther)
+		}
+		do("addself", vInt(0), muts)
+		for _, f := range []string{"list", "sorted", "reversed"} {
+			do(f, vInt(0), muts)
+		}
+		idx := []V{vNone(), vInt(0), vInt(1), vInt(int64(n)), vInt(-int64(n)), vInt(int64(n) + 2), vInt(-1)}
+		for _, lo := range idx {
+			for _, hi := range idx {
+				for _, st := range []V{vNone(), vInt(1), vInt(2), vInt(-1)} {
+					do("slice", vTuple(lo, hi, st), []string{"set-result", "append-result", "set-operand", "popappend-operand", "clear-operand"})
+				}
+			}
+		}
+	}
+}
